@@ -176,3 +176,5 @@ Proof.
     exists s, pi. split; [apply Hst; exact Q2|]. split; [exact Q3|exact Q4].
   - exact S1.
 Qed.
+
+Definition semi_optimal := semi_fit_opf.
